@@ -13,8 +13,9 @@ ROOT = os.path.dirname(HERE)
 def entries():
     out = []
     for p in sorted(glob.glob(os.path.join(ROOT, 'seeded', 'C*', 'patch.diff'))):
-        prop = os.path.basename(os.path.dirname(p))
-        out.append(dict(prop=prop, name=f'seeded/{prop}', kind='patch', patch=os.path.relpath(p, ROOT), expect='violation'))
+        sid = os.path.basename(os.path.dirname(p))
+        prop = sid.split('_')[0]
+        out.append(dict(prop=prop, name=f'seeded/{sid}', kind='patch', patch=os.path.relpath(p, ROOT), expect='violation'))
     for p in sorted(glob.glob(os.path.join(HERE, 'regressions', '*.diff'))):
         prop = os.path.basename(p).split('_')[0]
         out.append(dict(prop=prop, name='regression/' + os.path.basename(p)[:-5], kind='patch', patch=os.path.relpath(p, ROOT), expect='violation'))
